@@ -65,3 +65,143 @@ prop(
     text="Held on every transaction of multi-trader histories on shared vAMMs.",
     note="positions read from raw storage; queries get &dyn Storage in this runtime so the query clause is also enforced by typing",
 )
+prop(
+    "C04",
+    level="exploration",
+    technique="shadow-equity reference monitor fed by pre-state observations and the executed swap event; insurance-drain ledger on trader actions",
+    design_ref="DESIGN.md §4 C04",
+    rule="evaluations = successful ClosePosition calls (whole and partial) plus trader actions that lowered the insurance fund. R1 paid-to-trader == margin + pnl - funding owed (pnl from the quote amount in THIS transaction's swap event vs open notional, sign by direction), +-1, and the position is gone; "
+         "R2/R3 a (partial) close that succeeds with equity < -1 is a violation; R4 net fall of the insurance fund in Open/Close/Deposit/Withdraw <= rise of State.bad_debt. "
+         "distinct = (whole/partial, direction, sign pnl, sign funding, vault shortfall, fee config).",
+    essential=["whole-closes"],
+    text="Payout equals the independently recomputed equity on every observed close, over all sign combinations of PnL and funding the workloads produced.",
+    note="the AMM is not modelled: the exchanged quote amount is taken from the executed swap event; C17 ties quotes to execution",
+)
+prop(
+    "C05",
+    level="exploration",
+    technique="post-condition monitor recomputing margin ratio and free collateral from vAMM-level queries after every successful open / withdraw / deposit",
+    design_ref="DESIGN.md §4 C05",
+    rule="evaluations = successful OpenPosition / WithdrawMargin / DepositMargin calls. R1 ratio recomputed from OutputAmount/OutputTwap, stored position and cumulative premium fraction >= maintenance after an open that leaves a position; "
+         "R2 accepted leverage within [1, 1/initial]; R3 withdrawal: wallet +amount, stored margin -(amount+funding) +-1, free collateral (engine query and recomputation) >= 0, no bad debt; R4 deposit: margin delta == wallet decrease == amount. "
+         "distinct = (operation, prior position class, leverage class, pnl source, distance to the maintenance boundary / funding sign / free-collateral class).",
+    essential=["R1-ratio-checked", "withdrawals-ok", "deposits-ok", "R3-free-collateral-recomputed"],
+    text="Held on every successful trader action of the generated histories incl. boundary leverage and withdraw-exactly-free-collateral macros.",
+    note="ratio formula = (margin + pnl - funding)/notional with the smaller-magnitude PnL of spot and 15-minute TWAP",
+)
+prop(
+    "C06",
+    level="exploration",
+    technique="guard monitor (independent recomputation of the liquidation ratio incl. oracle override) + payout oracle over the transaction's transfer log",
+    design_ref="DESIGN.md §4 C06",
+    rule="evaluations = Liquidate calls that succeeded or were refused by the margin guard. R0 engine MarginRatio query vs recomputation (+-1); R1 success only if the recomputed ratio <= maintenance; "
+         "R2 full: position removed, liquidator gets half of quote*fee (+-1), trader nothing, remaining margin to insurance (+-1); R3 partial: |size| shrinks by exactly floor(|size|*p/D), no flip/growth, liquidator and insurance get half the penalty each. "
+         "distinct = (path or refusal, direction, deciding ratio spot/TWAP/oracle, distance-to-boundary bucket, caller kind, oracle kind).",
+    essential=["full-liquidations", "partial-liquidations", "refused-by-guard", "R0-ratio-compared"],
+    text="Every observed liquidation was checked against an independently computed ratio and payout; boundary reached by moving the maintenance ratio onto the observed ratio.",
+    note="quote exchanged is read from the swap event of the liquidation itself",
+)
+prop(
+    "C07",
+    level="exploration",
+    technique="bounded-progress monitor: whenever all stated preconditions are observed right before a Liquidate call, that call must succeed",
+    design_ref="DESIGN.md §4 C07",
+    rule="evaluations = Liquidate calls (limit 0, any caller) issued when the monitor observed ALL antecedents: recomputed liquidation ratio < maintenance, vAMM open and registered, whole (and partial) closing trade quotable with a non-zero half-penalty, "
+         "spot strictly inside the per-block band, liquidation fee ratio != 0, insurance fund >= 2*(notional+margin+close quote). Such a call failing is a violation; any uncertain antecedent skips the step. "
+         "distinct = (oracle kind, deciding ratio, ratio class negative/below-fee/above-fee, partial setting, vault smaller than remaining margin, paused, direction).",
+    essential=["antecedents-met"],
+    text="Unbounded 'can always be liquidated' is restated as immediate progress on every observed under-margined state; held on what was observed, with listed known findings.",
+    note="liveness is out of reach for runtime monitoring; the oracle price used is the harness's own last submission",
+)
+prop(
+    "C11",
+    level="exploration",
+    technique="schedule/amount oracle for PayFunding + exactly-once funding ledger (accounting identity per owner operation, checkpoint advance)",
+    design_ref="DESIGN.md §4 C11",
+    rule="evaluations = successful PayFunding calls and successful owner operations on existing positions. R1 no settlement before next funding time; R2 delta cumulative fraction == (vAMM TWAP - oracle TWAP)*period/86400 (+-1) with both TWAPs pre-queried at the configured interval, next funding time >= now+period/2; "
+         "R3 transfers: vault->insurance min(|A|,vault) if A>0, insurance->vault |A| if A<0, none if A=0, A=net position*fraction/D; R4 per operation (increase, reduce, reversal, close, partial close, withdraw, full liquidation) the margin/payout identity with funding owed F and checkpoint == cumulative fraction afterwards; deposit, partial liquidation, PayFunding and other accounts' transactions must not move checkpoints. "
+         "distinct = (operation, F zero/positive/negative, direction) and (settlement lateness, sign of A, capped, sign of net position).",
+    essential=["settlements", "R2-premium-checked", "R4-nonzero-funding-ops", "R1-early-settlement-refused"],
+    text="Funding schedule, amount and exactly-once charging checked on every observed settlement and owner operation with funding shocks so that F != 0 on most operations.",
+    note="identities asserted only when the pre-state equity covers F (the engine clamps margin at 0)",
+)
+prop(
+    "C12",
+    level="exploration",
+    technique="transfer-log oracle: exact list of fee transfers per successful operation recomputed from notional and stored ratios",
+    design_ref="DESIGN.md §4 C12",
+    rule="evaluations = successful Open/Close(whole)/Deposit/Withdraw/PayFunding/Liquidate calls. Open: exactly one transfer floor(N*spread/D) to the insurance fund and one floor(N*toll/D) to the fee pool (none when 0), N=floor(margin*leverage/D), payer = trader (cw20) or engine out of attached funds (native), on increase, reduce and both reversal outcomes; "
+         "whole close: the same on the pre-state open notional; deposit/withdraw/funding/liquidation: nothing to the fee pool and no fee-like transfer to the insurance fund. distinct = (operation, reply path, fee zero / rounds-to-zero / non-zero, collateral kind).",
+    essential=["fees:open:fee", "fees:close:fee", "fees:no-fee-ops", "fees:open:rounds-to-zero"],
+    text="Exact fee lists checked on every successful operation across toll/spread settings incl. ones rounding to zero.",
+    note="partial-close fees are not pinned by the statement and are not asserted",
+)
+prop(
+    "C14",
+    level="exploration",
+    technique="state-flag guard monitor (paused / open / registered read from pre-state) over admin-heavy histories + registry well-formedness invariant + shutdown post-condition",
+    design_ref="DESIGN.md §4 C14",
+    rule="evaluations = engine trading/keeper operations and insurance-fund registry/shutdown calls. R1 paused: Open/Close/Deposit/Withdraw must fail, Liquidate/PayFunding must never fail with the pause error; R2 closed vAMM: no open/close/liquidate/withdraw/funding succeeds; "
+         "R3 unregistered vAMM: no open/liquidate/withdraw/funding succeeds; R4 registry has no duplicates, <= 3 entries, IsVamm agrees with GetAllVamm for all probed addresses; R5 after ShutdownVamms sent by the fund's owner (whatever it returned) every registered vAMM naming this fund is closed. "
+         "distinct = (paused, open, registered, operation, outcome), (registry op, size, outcome), (shutdown, #registered, #already closed, outcome).",
+    essential=["R1-trading-while-paused", "R1-keeper-ok-while-paused", "R2-ops-on-closed-vamm", "R3-ops-on-unregistered-vamm", "shutdowns-by-owner", "R4-add-at-capacity"],
+    text="All flag combinations per vAMM were driven with live positions; shutdown exercised from subsets of already-closed vAMMs.",
+    note="pause flag is read from the engine's raw state record (not exposed by a query)",
+)
+prop(
+    "C15",
+    level="exploration",
+    technique="trace monitor with its own per-block reference-price record; band-edge workloads sized by dry-run bisection",
+    design_ref="DESIGN.md §4 C15",
+    rule="evaluations = OpenPosition / ClosePosition calls on vAMMs with a non-zero fluctuation limit. Reference = monitor's record of spot at the end of the last earlier block in which reserves changed. R1 successful open leaving a position: spot_post within [lower-1, upper+1]; R2 not accepted when spot_pre already outside; "
+         "R3a whole close (partial fraction < 100%) must leave the price inside; R3b partial close only when the whole close (evaluated from OutputAmount in the true closing direction) would leave the band, and by the configured fraction. "
+         "distinct = (operation, side, intra-block drift direction, distance-to-edge bucket, same-block trade count, reply path).",
+    essential=["opens-under-band", "opens-at-edge", "opens-rejected-by-vamm", "whole-closes-under-band", "partial-closes-under-band"],
+    text="Trades were placed within +-2 raw units of the band edge by bisection, with the price pre-drifted inside the block.",
+    note="+-1 raw unit tolerance on band bounds (integer price)",
+)
+prop(
+    "C16",
+    level="exploration",
+    technique="trace monitor: per-vAMM liquidation-in-block marker kept by the monitor vs observed acceptance/refusal of later Open/Close in the same block",
+    design_ref="DESIGN.md §4 C16",
+    rule="evaluations = Open/Close calls. restricted := a liquidation succeeded on this vAMM earlier in this block AND the sender's stored position was last updated in this block. R1 restricted calls must fail; R2 unrestricted calls must not fail with the restriction error. "
+         "distinct = (operation, liquidation in block, position touched in block, has position, outcome).",
+    essential=["restricted-attempts", "unrestricted-in-liquidation-block", "liquidations"],
+    text="Same-block schedules of victim, liquidator and bystander trades around liquidations, and the following block.",
+    note="'modify' is read as open/close trades (deposit/withdraw are not trades on the position size)",
+)
+prop(
+    "C17",
+    level="exploration",
+    technique="differential quote-vs-execution monitor (pre-queried InputAmount/OutputAmount vs executed swap events) + slippage-limit oracle with dry-run retry at limit 0 to isolate the failure cause",
+    design_ref="DESIGN.md §4 C17",
+    rule="evaluations = swaps whose quote was pre-queried (direct vAMM swaps in W-VAMM; engine opens/closes in W-ENG) and limit-carrying calls. R1 executed amount == quoted amount and the requested side moves by exactly the request; R2 (vAMM) a non-zero limit violated by the quote must fail, a satisfied one must not fail with a limit error; "
+         "R3 (engine) Open(increase/reduce) and whole Close: limit violated yet Ok, or satisfied (incl. equality) yet failing while the same call with limit 0 succeeds on the same state (dry run). distinct = (level, operation, side, limit relation =/slack/violated, outcome).",
+    essential=["R1-open-quote-vs-execution", "R1-close-quote-vs-execution", "R3-open-limits", "R3-close-limits"],
+    text="Quotes compared with execution on every single-leg swap; limits at quote-1, quote, quote+1 on both sides.",
+    note="the engine masks vAMM error texts, hence the dry-run retry with limit 0",
+)
+prop(
+    "C18",
+    level="exploration",
+    technique="trace monitor with its own timeline of end-of-block spot prices; raw snapshot audit; price-feed reference model (W-PF)",
+    design_ref="DESIGN.md §4 C18",
+    rule="evaluations = TWAP queries checked (vAMM: four interval classes after every reserve change / block advance; feed: GetTwapPrice/GetPrice/GetPreviousPrice over every submission history). vAMM TWAP must lie within [min,max] (+-1) of the prices in effect during the window per the monitor's own timeline; "
+         "raw reserve snapshots: no two with one block height, at most reserve-changing blocks + 1, latest == current reserves. Feed: TWAP within min/max of submissions overlapping the window, GetPrice == last submission, GetPreviousPrice{n} == the (rounds-n)-th submission and an error for n >= rounds. "
+         "distinct = (interval class, #segments in window, same-block overwrite seen) and feed cases.",
+    essential=["twap-queries", "same-block-overwrites", "snapshot-audits"],
+    text="TWAP bounds checked against an independent price timeline on histories with several trades per block and long gaps.",
+    note="prices are integers scaled by D; one raw unit of slack for truncation",
+)
+prop(
+    "C20",
+    level="exploration",
+    technique="post-condition monitor on caps after position-increasing trades + configuration-bounds invariant after every step under random UpdateConfig sequences",
+    design_ref="DESIGN.md §4 C20",
+    rule="evaluations = successful opens under a non-zero cap, cap rejections and configuration updates. R1 after a position-increasing open by a non-whitelisted trader: State.open_interest <= cap and |size| <= holding cap; R2 after every step every stored ratio <= 1, maintenance <= initial, TWAP interval in [60, 604800]; "
+         "R3 no registered vAMM with decimals != the engine's. distinct = (increasing, whitelisted, relation to each cap, reply path) and (config op, outcome).",
+    essential=["opens-under-caps", "cap-rejections", "config-updates", "config-updates-rejected", "R3-mismatched-decimals-offered"],
+    text="Caps raised/lowered between trades, whitelist flips, boundary config values (0, 1, 1+1 raw, crossing maintenance/initial).",
+    note="open interest is the engine-wide figure the cap is compared with",
+)
